@@ -6,8 +6,14 @@ virtual instant) are exactly the events of spec/Svs.tla:
 
   recv(p, j, r)  (r = number of new_data() calls the application makes inside on_missing_data)
                  a sync Interest (real, signed, built here) carrying packet p is handed to the
-                 application's receive callback, *before* any timer that is due at this instant
+                 application's receive callback, *before* any timer that is due at this instant.
+                 Packets of kind "cut" (a vector cut at some octet, also inside a multi-octet number) and "svl"
+                 (a vector only a lenient reader gets: non-minimal numbers, trailing octets, unknown elements)
+                 stand for classes of byte strings (World.cuts / World.lenient); the members take turns
   publish(n, j)  n calls of new_data() in one loop turn
+  recv(p, j, r, pre=n)   PublishThenRecv: n calls of new_data() from a callback of the very loop iteration in which
+                 the handler of the sync Interest then runs - after new_data() returned, before the timer task
+                 has been scheduled again (its wake-up is only queued by then)
   fire(j)        the timers due at this instant run (only legal when timer() == 0)
   tick(d)        virtual time moves forward by d ticks, timers that become due do NOT run yet
 
@@ -19,6 +25,7 @@ of the sync Interests handed to the face during the step, the number of on_missi
 during the step; plus, for keeping spec and instance in step, the public `state` and the time
 left until the public `next_sync_timing`.
 """
+import asyncio as aio
 import secrets
 import time
 
@@ -120,6 +127,56 @@ def parse_sv_component(comp):
     return entries
 
 
+# ---- byte-level variants of a state vector (classes "cut" and "svl" of the packet universe)
+def _num(n, width=1):
+    """TLV-VAR-NUMBER n; width 3 / 5 / 9 forces the long form (non-minimal when n would fit a shorter one)"""
+    if width == 1:
+        return _varnum(n)
+    return {3: b'\xfd', 5: b'\xfe', 9: b'\xff'}[width] + n.to_bytes(width - 1, 'big')
+
+
+# the places where a state-vector component has a Type or a Length number: of the component itself (the
+# wrapper element 0xc9, whose value is the vector), of an entry, of the node-id Name, of a name component, of SeqNo
+SITES = ('wT', 'wL', 'eT', 'eL', 'nT', 'nL', 'cT', 'cL', 'sT', 'sL')
+WIDTHS = (3, 5, 9)
+# octets after the last well-formed element: one stray octet; an unknown element a reader may skip (type
+# 0xf0: even and above 31 - not critical); an unknown element no reader may skip (0xf1: critical)
+TRAILERS = (b'\x00', b'\xf0\x00', b'\xf1\x00')
+
+
+def sv_value(entries, wide=None, tail_vec=b'', tail_entry=b'', head_vec=b''):
+    """value of the state-vector component for entries [(name components, seq)]; wide = (site, width): every
+    number of that kind is written in the long form; tail_* / head_*: octets appended to the vector / to the
+    last entry / put in front of the first entry"""
+    site, width = wide or (None, 1)
+    w = lambda k: width if k == site else 1
+    body = head_vec
+    for n, (comps, seq) in enumerate(entries):
+        nm = b''
+        for c in comps:
+            (t, v), = _read_tlvs(c)
+            nm += _num(t, max(w('cT'), len(_varnum(t)))) + _num(len(v), w('cL')) + v
+        sq = _uint(seq)
+        e = _num(0x07, w('nT')) + _num(len(nm), w('nL')) + nm + _num(0xcc, w('sT')) + _num(len(sq), w('sL')) + sq
+        if n == len(entries) - 1:
+            e += tail_entry
+        body += _num(0xca, w('eT')) + _num(len(e), w('eL')) + e
+    return body + tail_vec
+
+
+def sv_component(value, wide=None):
+    site, width = wide or (None, 1)
+    return _num(SV_TYPE, width if site == 'wT' else 1) + _num(len(value), width if site == 'wL' else 1) + value
+
+
+def strictly_decodable(value):
+    try:
+        parse_sv_component(_tlv(SV_TYPE, value))
+        return True
+    except (IndexError, ValueError, KeyError):
+        return False
+
+
 class World:
     """One sync group as seen by one instance: the group prefix and the real names of the abstract nodes."""
 
@@ -129,6 +186,8 @@ class World:
         self.names = {n: [bytes(c) for c in v] for n, v in names.items()}
         self.by_bytes = {_tlv(0x07, b''.join(v)): n for n, v in self.names.items()}
         self.wires = {}
+        self.turn = {'cut': 0, 'svl': 0}      # next member of a byte-level class to deliver (when the event names none)
+        self._cuts = None
 
     def node_name(self, n):
         return list(self.names[n])
@@ -153,16 +212,71 @@ class World:
             body += _tlv(0xca, e)
         return _tlv(SV_TYPE, body)
 
-    def sync_interest(self, p):
+    # ---- class "cut": the value of the state-vector component is the encoding of some vector (minimal, or with
+    # ---- the numbers of one kind in a 3 / 5 / 9-octet form) cut after i octets, 0 < i < its length, wherever what is
+    # ---- left is not a well-formed vector again. The component itself stays a well-formed TLV (a transport or the
+    # ---- Interest decoder would not let anything else through): the cut shows only to whoever reads the vector.
+    CUT_BASES = ([('n1', 1)], [('self', 0), ('n2', 300)], [('n3', 70000)], [('n4', 1 << 33)])
+
+    def cuts(self):
+        """the members of class "cut": (component bytes, description)"""
+        if self._cuts is None:
+            out, seen = [], set()
+            for es in self.CUT_BASES:
+                ents = [(self.node_name(n), q) for n, q in es]
+                for wide in [None] + [(s, w) for s in SITES for w in WIDTHS]:
+                    val = sv_value(ents, wide)
+                    for i in range(1, len(val)):
+                        comp = sv_component(val[:i], wide if wide and wide[0] in ('wT', 'wL') else None)
+                        if comp in seen or strictly_decodable(val[:i]):
+                            continue
+                        seen.add(comp)
+                        out.append((comp, '%s %s cut after %d of %d octets' % (es, wide or 'minimal', i, len(val))))
+            self._cuts = out
+        return self._cuts
+
+    # ---- class "svl": a well-formed vector that only a lenient reader gets: numbers of one kind written in a
+    # ---- non-minimal 3 / 5 / 9-octet form, or octets / unknown elements after the last entry or inside it, or an
+    # ---- unknown element in front of the first entry. Reading it as the vector or ignoring it are both fine.
+    # (not inside the node-id name's components: a name with a non-minimal component is another byte string, and
+    # whether it names the same node is not C18's business)
+    SVL_VARIANTS = ([('wide', s, w) for s in SITES if s not in ('cT', 'cL') for w in WIDTHS]
+                    + [('tail_vec', t) for t in TRAILERS] + [('tail_entry', t) for t in TRAILERS]
+                    + [('head_vec', t) for t in TRAILERS[1:]])
+
+    def lenient(self, es, x):
+        """member x of class "svl" for the plain vector es = [(id, seq)]: component bytes"""
+        ents = [(self.node_name(n), q) for n, q in es]
+        v = self.SVL_VARIANTS[x % len(self.SVL_VARIANTS)]
+        if v[0] == 'wide':
+            return sv_component(sv_value(ents, (v[1], v[2])), (v[1], v[2]))
+        return sv_component(sv_value(ents, **{v[0]: v[1]}))
+
+    def members(self, k):
+        return len(self.cuts()) if k == 'cut' else len(self.SVL_VARIANTS) if k == 'svl' else 1
+
+    def pick_member(self, p, x=None):
+        """which member of a byte-level class packet p stands for this time: x if given (a replay), else the next
+        one in turn - over a run every member is delivered, in many states. None for the other kinds."""
+        k = p['k']
+        if k not in self.turn:
+            return None
+        if x is None:
+            x = self.turn[k]
+            self.turn[k] = (x + 1) % self.members(k)
+        return x % self.members(k)
+
+    def sync_interest(self, p, x=None):
         """Wire of a signed sync Interest for spec packet p = {'k':kind, 'es':[{'id','seq'}..]} (memoised:
-        the Interest is signed with DigestSha256, so equal packets have equal wires anyway)."""
-        key = (p['k'], tuple((e['id'], e['seq']) for e in p.get('es', [])))
+        the Interest is signed with DigestSha256, so equal packets have equal wires anyway). x: member of the
+        class, for the kinds that stand for a class of byte strings."""
+        key = (p['k'], tuple((e['id'], e['seq']) for e in p.get('es', [])), x)
         w = self.wires.get(key)
         if w is None:
-            w = self.wires[key] = self._sync_interest(p)
+            w = self.wires[key] = self._sync_interest(p, x)
         return w
 
-    def _sync_interest(self, p):
+    def _sync_interest(self, p, x=None):
         base = self.base
         enc_sv = self.encode_sv_component
         signer = sec.DigestSha256Signer(for_interest=True)
@@ -170,6 +284,10 @@ class World:
         es = [(e['id'], e['seq']) for e in p.get('es', [])]
         if k == 'sv':
             name = base + [enc_sv(es)]
+        elif k == 'cut':
+            name = base + [self.cuts()[x][0]]
+        elif k == 'svl':
+            name = base + [self.lenient(es, x)]
         elif k == 'empty':
             # a state-vector element with no entry at all
             name = base + [enc_sv([])]
@@ -226,13 +344,74 @@ QUIET_TICKS = 1 << 20      # intervals of an instance whose timers must never fi
 QUIET_TIMER = 64           # what such an instance reports as time left (the open spec does not care)
 
 
+# ---- how an application hands the two names to the SvsInst constructor (both are NonStrictName): as a list or a
+# ---- tuple of components, with the plain components as str, as a URI string (only names made of plain ASCII
+# ---- generic components are written that way here - URI conversion of the others is C09's subject), or as an
+# ---- encoded Name in bytes / a bytearray (what Name.encode() returns) / a writable or read-only memoryview, or a
+# ---- list of bytearray components. A writable buffer belongs to the caller: it is overwritten as soon as the
+# ---- constructor has returned (before start()), and the instance must not follow it.
+REPS = ('list', 'tuple', 'strlist', 'uri', 'bytes', 'bytearray', 'mv-rw', 'mv-ro', 'list-bytearray')
+_REP_TURN = {'n': 0}
+
+
+def _plain(comp):
+    (t, v), = _read_tlvs(comp)
+    return t == 0x08 and len(v) > 0 and all(48 <= c <= 57 or 65 <= c <= 90 or 97 <= c <= 122 for c in v)
+
+
+def name_arg(comps, rep):
+    """(argument for the constructor, function that overwrites the caller's buffer(s) or None, representation used)"""
+    comps = [bytes(c) for c in comps]
+    wire = _tlv(0x07, b''.join(comps))
+
+    def scribble(bufs):
+        def go():
+            for b in bufs:
+                for i in range(len(b)):
+                    b[i] = 0x41 if i >= 2 else b[i]          # (type and length stay: still a TLV, other content)
+        return go
+    if rep == 'uri' and not (comps and all(_plain(c) for c in comps)):
+        rep = 'tuple'
+    if rep == 'list':
+        return list(comps), None, rep
+    if rep == 'tuple':
+        return tuple(comps), None, rep
+    if rep == 'strlist':
+        return [_read_tlvs(c)[0][1].decode() if _plain(c) else c for c in comps], None, rep
+    if rep == 'uri':
+        return '/' + '/'.join(_read_tlvs(c)[0][1].decode() for c in comps), None, rep
+    if rep == 'bytes':
+        return wire, None, rep
+    if rep == 'bytearray':
+        b = bytearray(wire)
+        return b, scribble([b]), rep
+    if rep == 'mv-rw':
+        b = bytearray(wire)
+        return memoryview(b), scribble([b]), rep
+    if rep == 'mv-ro':
+        return memoryview(wire), None, rep
+    if rep == 'list-bytearray':
+        bs = [bytearray(c) for c in comps]
+        return bs, scribble(bs), rep
+    raise ValueError(rep)
+
+
+def _exc_name(e):
+    """class name of an exception; with its module where the bare name says nothing (struct.error, socket.error ...)"""
+    t = type(e)
+    return t.__name__ if t.__name__ != 'error' else '%s.%s' % (t.__module__, t.__name__)
+
+
 class Scenario:
     def __init__(self, nodes, init_seq=0, sup_ticks=2, sync_ticks=10, rstep=32768, j0=0, world=None, host=None,
-                 quiet=False, own_app=False):
+                 quiet=False, own_app=False, reps=None):
         """nodes: list of node ids, nodes[0] is this node. sup_ticks/sync_ticks: the configured
         suppression / periodic intervals in ticks. rstep: randbits value per jitter unit.
         host: another Scenario whose session, application and face this instance shares (two SvsInst
-        alive in one process); quiet: intervals so long that no timer of this instance ever fires."""
+        alive in one process); quiet: intervals so long that no timer of this instance ever fires.
+        reps: (representation of the group prefix, of the node id) for the constructor, see REPS; None: the next
+        pair in turn. What goes wrong with a representation is kept in init_faults [(signature tail, text, replay
+        object)]; the scenario then goes on with an instance made from plain component lists."""
         self.nodes = list(nodes)
         self.me = nodes[0]
         self.world = world or WORLD
@@ -246,6 +425,9 @@ class Scenario:
         self.sup_ticks, self.sync_ticks = sup_ticks, sync_ticks
         self.missing_calls = 0
         self.react = 0
+        self.pre = 0                  # publications to make right before the handler of the packet being delivered runs
+        self.pre_path = None          # how the last such step was realised: 'loop' | 'direct' | 'missed'
+        self.last_x = None            # member of the byte-level class the last received packet stood for
         self.published = False
         self.rets = []                # values returned by new_data() during the step (applications name data by them)
         self.cbsaw = []               # local_sv as seen inside on_missing_data during the step
@@ -264,11 +446,16 @@ class Scenario:
                 self.seen = 0
             else:
                 self.app, self.face = host.app, host.face
-            self.inst = SvsInst(self.world.group, self.world.node_name(self.me), self._on_missing,
-                                sec.DigestSha256Signer(for_interest=True), appv2.pass_all,
-                                sync_interval=sync_ticks * U, suppression_interval=sup_ticks * U,
-                                last_used_seq_num=init_seq)
-            self.inst.start(self.app)
+            if reps is None:
+                n = _REP_TURN['n']
+                _REP_TURN['n'] += 1
+                reps = (REPS[n % len(REPS)], REPS[(n // len(REPS) + n) % len(REPS)])
+            self.init_faults = []
+            self.inst = None
+            for attempt in (tuple(reps), ('list', 'list')):
+                self.reps = attempt
+                if self._make_inst(attempt, init_seq, sync_ticks, sup_ticks):
+                    break
             self.sess.loop.settle(timers_now=host is None)
             # the instance announces itself at start; C18 says nothing about that
             self.start_out = self._take_out()
@@ -278,6 +465,75 @@ class Scenario:
             self.close()
             raise
 
+    def _make_inst(self, reps, init_seq, sync_ticks, sup_ticks, probing=False):
+        """create and start the instance with the two names in the given representations; False if that went wrong
+        in a way C18 does not allow (noted in init_faults) and the instance is not usable
+        (probing: only try - returns the exception or None, keeps nothing)"""
+        gcomps = [bytes(c) for c in self.world.base]
+        mcomps = self.world.node_name(self.me)
+        g, gscr, grep = name_arg(gcomps, reps[0])
+        m, mscr, mrep = name_arg(mcomps, reps[1])
+        last = reps == ('list', 'list')
+        obj = {'kind': 'init', 'nodes': self.nodes, 'init': init_seq, 'reps': [grep, mrep],
+               'world': 'sibling' if self.world is SIBLING else 'peer' if self.world is PEER else 'main'}
+        inst = None
+        try:
+            inst = SvsInst(g, m, self._on_missing, sec.DigestSha256Signer(for_interest=True), self._validator,
+                           sync_interval=sync_ticks * U, suppression_interval=sup_ticks * U,
+                           last_used_seq_num=init_seq)
+            for scr in (gscr, mscr):
+                if scr is not None:
+                    scr()               # the caller reuses its buffers
+            inst.start(self.app)
+        except Exception as e:      # noqa
+            if last:
+                raise
+            if inst is not None:
+                try:
+                    inst.stop()
+                except Exception:   # noqa
+                    pass
+            if not probing:
+                # which of the two arguments is it? (the same pair with the other one as a plain list)
+                which = 'group=%s,id=%s' % (grep, mrep)
+                for alone, label in (((grep, 'list'), 'group=%s' % grep), (('list', mrep), 'id=%s' % mrep)):
+                    if alone == ('list', 'list'):
+                        continue
+                    e2 = e if alone == (grep, mrep) else self._make_inst(alone, init_seq, sync_ticks, sup_ticks, probing=True)
+                    if e2 is not None and type(e2) is type(e):
+                        which = label
+                        break
+                self.init_faults.append(('%s/raised:%s' % (which, _exc_name(e)),
+                                         'SvsInst(group prefix as %s, node id as %s) / start(): %s: %s' % (
+                                             grep, mrep, type(e).__name__, e), obj))
+                return False
+            return e
+        if probing:
+            try:
+                inst.stop()
+            except Exception:   # noqa
+                pass
+            return None
+        self.inst = inst
+        bad = []
+        try:
+            if [bytes(c) for c in inst.base_prefix] != gcomps:
+                bad.append(('base_prefix', grep))
+            if bytes(inst.self_node_id) != _tlv(0x07, b''.join(mcomps)):
+                bad.append(('self_node_id', mrep))
+        except Exception as e:      # noqa
+            bad.append(('unreadable:%s' % _exc_name(e), '%s,%s' % (grep, mrep)))
+        if bad and not last:
+            for attr, how in bad:
+                self.init_faults.append(('%s-follows-%s' % (attr, how),
+                                         'the application overwrote the buffer it had handed to the SvsInst constructor '
+                                         '(group prefix as %s, node id as %s) after the constructor returned: the public %s '
+                                         'of the instance changed with it' % (grep, mrep, attr), obj))
+            inst.stop()
+            self.inst = None
+            return False
+        return True
+
     def _on_missing(self, inst):
         # the application's reaction inside the (non-blocking) callback: self.react publications
         self.missing_calls += 1
@@ -285,6 +541,27 @@ class Scenario:
         for _ in range(self.react):
             self.rets.append(inst.new_data())
             self.published = True
+
+    async def _validator(self, _name, _sig, _context):
+        """The application's validator of sync Interests: accepts everything (appv2.pass_all). With publications armed
+        (recv(..., pre=n)) it is also how the order `new_data(), handler, timer task` is realised through the real
+        receive path: validation takes one more loop iteration (as a validator that has to look something up does),
+        and the application's publishing callback is queued in front of its resumption. appv2 calls the handler in
+        the step in which the validator returns, so that iteration runs [new_data() x n] [validator returns, handler];
+        the wake-up of on_timer, queued by new_data(), comes an iteration later. (Measured on the virtual loop: a
+        packet handed to the receive path after new_data() returned always loses the race - its handler runs two
+        iterations later, the timer task one.)"""
+        if self.pre > 0:
+            n, self.pre = self.pre, 0
+            aio.get_running_loop().call_soon(self._publish_now, n)
+            await aio.sleep(0)
+            self.pre_path = 'loop'
+        return appv2.ValidResult.PASS
+
+    def _publish_now(self, n):
+        for _ in range(n):
+            self.rets.append(self.inst.new_data())
+        self.published = True
 
     @property
     def r(self):
@@ -355,14 +632,45 @@ class Scenario:
         return [str(c.get('exception') or c.get('message')) for c in self.sess.loop.errors]
 
     # ---- stimuli
-    def recv(self, p, j=0, react=0):
+    def _handle_directly(self, wire):
+        """the attached handler called in the call stack of the caller (no loop iteration in between)"""
+        try:
+            name, _, app_param, _ = enc.parse_interest(wire)
+            self.inst.sync_handler(name, app_param, lambda _data: False, {})
+        except Exception as e:      # noqa
+            return e
+        return None
+
+    def recv(self, p, j=0, react=0, pre=0, x=None):
+        """pre > 0: PublishThenRecv - new_data() x pre, then the handler of p, then the timer task (see _validator).
+        An Interest without signature is not validated (appv2 hands it to the handler at once), so there the same
+        order is produced without the receive path: new_data() x pre and the attached handler in one call stack."""
         self.r = j * self.rstep
         self.react, self.published = react, False
         n0 = len(self.sess.loop.errors)
+        # (p of kind "cut" / "svl" stands for a class of byte strings: x names the member, None = the next in turn)
+        self.last_x = self.world.pick_member(p, x)
+        wire = self.world.sync_interest(p, self.last_x)
+        self.pre_path = None
         try:
-            exc = deliver(self.sess, self.face, self.world.sync_interest(p), timers_now=False)
+            if pre > 0 and p['k'] == 'unsigned':
+                self._publish_now(pre)
+                exc = self._handle_directly(wire)
+                self.pre_path = 'direct'
+                self.sess.loop.settle(timers_now=False)
+            else:
+                self.pre = pre
+                exc = deliver(self.sess, self.face, wire, timers_now=False)
+                if self.pre > 0:
+                    # the Interest never reached validation (dropped on the way, or handled without it): the
+                    # publications are made now, and the projection after the step says what that meant for C18
+                    self.pre_path = 'missed'
+                    self._publish_now(self.pre)
+                    self.pre = 0
+                    self.sess.loop.settle(timers_now=False)
         finally:
             self.react = 0
+            self.pre = 0
         if exc is not None:
             # an exception out of the application's receive path is the library's doing, not the harness's:
             # it is noted, and the projection after the step says what it meant for C18
@@ -376,7 +684,7 @@ class Scenario:
             # (it surfaces in the loop's exception handler as soon as the finished handler task is released, which
             # CPython does by reference count at the end of the step) is reported
             new = [c.get('exception') for c in self.sess.loop.errors[n0:]]
-            post['raised'] = ','.join(sorted({type(e).__name__ for e in new if e is not None}))
+            post['raised'] = ','.join(sorted({_exc_name(e) for e in new if e is not None}))
         return post
 
     def recv_wire(self, wire):
@@ -415,7 +723,9 @@ class Scenario:
     def apply(self, ev):
         a = ev['a']
         if a == 'RecvSV':
-            return self.recv(ev['p'], ev.get('j', 0), ev.get('r', 0))
+            return self.recv(ev['p'], ev.get('j', 0), ev.get('r', 0), x=ev.get('x'))
+        if a == 'PublishThenRecv':
+            return self.recv(ev['p'], ev.get('j', 0), ev.get('r', 0), pre=ev['n'], x=ev.get('x'))
         if a == 'Publish':
             return self.publish(ev['n'], ev.get('j', 0))
         if a == 'TimerFire':
